@@ -1,13 +1,15 @@
 //go:build verif
 
 // Contracts for package mem/vm/gmmu, property C03 (comment-only; read by /verif/engine, never compiled into a build).
-// C03, decidable part: "No result depends on map iteration order" (the engine iterates a map in an ARBITRARY order).
+// C03, decidable part: "No result depends on map iteration order".
 //
-// ctrlMiddleware.endInflightTasks (Reset path): loop 0 walks the SLICE WalkingTranslations (ordered), loop 1 ranges over
-// the MAP RemoteMemReqs and ends the req_out task keyed by each map key. The observable effect is the SEQUENCE of TaskEnd
-// hook invocations, logged in the ghost (c03EndN, c03EndSeq). Honest order-independence: the remote phase of the log is
-// the key set of RemoteMemReqs in increasing order. The set part holds; the order part (C03.endInflightTasks.deterministic*)
-// does NOT hold for the code as written (same defect as mem/datamover, see the C03 report).
+// ctrlMiddleware.endInflightTasks (Reset path): loop 0 walks the SLICE WalkingTranslations (ordered by construction), loop 1
+// ends the req_out task keyed by every key of the MAP State.RemoteMemReqs (the remote phase of the log, from `mid` on).
+// The observable effect is the SEQUENCE of TaskEnd hook invocations (what every tracer attached to the component sees, e.g.
+// the row order of a DBTracer's "trace" table), logged in the ghost (c03EndN, c03EndSeq). Order-independence: the log is
+// pinned as a function of the map's CONTENTS -- exactly its keys (members, complete), in increasing order (deterministic).
+// History: before /repo commit 8468750f the function ranged over the map directly and the hooks ran in Go's randomized map
+// order (200 identical resets with 8 entries gave 8 distinct TaskEnd orders); the order clauses were not provable then.
 package gmmu
 
 // ---- trusted: tracing entry points end in arbitrary user hooks (assumed not to touch the component); EndTaskOnReset is logged.
@@ -20,9 +22,11 @@ package gmmu
 //@ ext tracing.EndReqInOnReset(domain, id)
 //@   trusted
 //@   assigns nothing
+// slices.Sorted(maps.Keys(m)) is modelled natively by the engine (trusted standard library): a fresh, strictly ascending
+// slice of exactly the keys of m; SortedKeys_pos[k] is the index of key k.
 
-//@ func c03RM(m) = m.comp.State.RemoteMemReqs
 //@ pred c03LogKeeps(from) = forall k int :: k < from ==> c03EndSeq[k] == old(c03EndSeq)[k]
+//@ func c03RM(m) = m.comp.State.RemoteMemReqs
 
 //@ fn (*ctrlMiddleware).endInflightTasks
 //@   property C03
@@ -30,7 +34,7 @@ package gmmu
 //@   label C03.endInflightTasks.remote.members
 //@   ensures old(c03EndN) <= mid && mid <= c03EndN && (forall k int :: mid <= k && k < c03EndN ==> (c03EndSeq[k] in c03RM(m)))
 //@   label C03.endInflightTasks.remote.complete
-//@   ensures forall a uint64 :: (a in c03RM(m)) ==> mid <= pos[a] && pos[a] < c03EndN && c03EndSeq[pos[a]] == a
+//@   ensures forall a uint64 :: (a in c03RM(m)) ==> 0 <= SortedKeys_pos[a] && mid + SortedKeys_pos[a] < c03EndN && c03EndSeq[mid + SortedKeys_pos[a]] == a
 //@   label C03.endInflightTasks.log.keeps
 //@   ensures c03LogKeeps(old(c03EndN))
 // ORDER: a function of the contents alone = increasing key
@@ -43,8 +47,12 @@ package gmmu
 //@   loop 0: invariant old(c03EndN) <= c03EndN && c03LogKeeps(old(c03EndN))
 //@   loop 1: ghost mid = c03EndN
 //@   loop 1: backedge mid = mid
-//@   loop 1: ghost pos = idperm
-//@   loop 1: backedge pos = upd(pos, reqOutID, athead(c03EndN))
-//@   loop 1: invariant old(c03EndN) <= mid && mid <= c03EndN && c03LogKeeps(old(c03EndN))
-//@   loop 1: invariant forall k int :: mid <= k && k < c03EndN ==> (c03EndSeq[k] in c03RM(m)) && visited(c03EndSeq[k])
-//@   loop 1: invariant forall a uint64 :: visited(a) ==> mid <= pos[a] && pos[a] < c03EndN && c03EndSeq[pos[a]] == a
+//@   loop 1: invariant old(c03EndN) <= mid && -1 <= rangeindex && rangeindex < len(c03RM(m)) && c03EndN == mid + rangeindex + 1 && c03LogKeeps(old(c03EndN))
+//@   label C03.endInflightTasks.last.atloop
+//@   loop 1: invariant rangeindex >= 0 ==> (c03EndSeq[c03EndN - 1] in c03RM(m)) && SortedKeys_pos[c03EndSeq[c03EndN - 1]] == rangeindex
+//@   label C03.endInflightTasks.members.atloop
+//@   loop 1: invariant forall k int :: mid <= k && k < c03EndN ==> (c03EndSeq[k] in c03RM(m)) && SortedKeys_pos[c03EndSeq[k]] == k - mid
+//@   label C03.endInflightTasks.complete.atloop
+//@   loop 1: invariant forall a uint64 :: (a in c03RM(m)) && SortedKeys_pos[a] <= rangeindex ==> c03EndSeq[mid + SortedKeys_pos[a]] == a
+//@   label C03.endInflightTasks.deterministic.atloop
+//@   loop 1: invariant forall k int :: mid <= k && k + 1 < c03EndN ==> c03EndSeq[k] < c03EndSeq[k+1]
